@@ -23,18 +23,24 @@ Definition lookup (n : string) (s : shape) : option field :=
 
 Definition uniq (s : shape) : Prop := NoDup (map fname s).
 
-(* field.type == str   (PrimitiveType.__eq__ against the Python type; the label is not looked at) *)
+(* field.type == str   (PrimitiveType.__eq__ against the Python type) *)
 Definition is_str (f : field) : bool := match fty f with TStr => true | _ => false end.
 Definition is_int (f : field) : bool := match fty f with TInt => true | _ => false end.
 
-(* _validate_paged_field_size_type: int, or a message whose *short name* is UInt32Value / Int32Value *)
+(* _validate_paged_field_size_type: int, or a message whose short name is UInt32Value / Int32Value *)
 Definition wrapper_name (n : string) : bool := String.eqb n "UInt32Value" || String.eqb n "Int32Value".
 Definition size_type_ok (f : field) : bool :=
   match fty f with TInt => true | TMsg _ n => wrapper_name n | _ => false end.
 
-(* page_fields = (fields.get("max_results"), fields.get("page_size")); next(f for f in page_fields if f) *)
-Definition size_field (req : shape) : option field :=
-  match lookup "max_results" req with Some f => Some f | None => lookup "page_size" req end.
+(* "if not field or field.repeated or field.type != source_type: return None" *)
+Definition token_ok (f : field) : bool := negb (frep f) && is_str f.
+
+(* has_page_size   = page_size and not page_size.repeated and page_size.type == int
+   has_max_results = max_results and not max_results.repeated and _validate_paged_field_size_type(max_results) *)
+Definition has_page_size (req : shape) : bool :=
+  match lookup "page_size" req with Some f => negb (frep f) && is_int f | None => false end.
+Definition has_max_results (req : shape) : bool :=
+  match lookup "max_results" req with Some f => negb (frep f) && size_type_ok f | None => false end.
 
 (* "for field in self.output.fields.values(): if field.repeated: return field" *)
 Definition first_repeated (resp : shape) : option field := find frep resp.
@@ -43,32 +49,21 @@ Definition paged_result_field (req resp : shape) : option field :=
   match lookup "page_token" req with
   | None => None
   | Some t =>
-    if negb (is_str t) then None else
+    if negb (token_ok t) then None else
     match lookup "next_page_token" resp with
     | None => None
     | Some n =>
-      if negb (is_str n) then None else
-      match size_field req with
-      | None => None
-      | Some sz => if size_type_ok sz then first_repeated resp else None
-      end
+      if negb (token_ok n) then None else
+      if has_page_size req || has_max_results req then first_repeated resp else None
     end
   end.
 
 Definition is_paged (req resp : shape) : bool :=
   match paged_result_field req resp with Some _ => true | None => false end.
 
-(* ---- the code's condition, stated declaratively ---- *)
 Definition has (s : shape) (n : string) (p : field -> bool) : Prop :=
   exists f, In f s /\ fname f = n /\ p f = true.
-Definition lacks (s : shape) (n : string) : Prop := forall f, In f s -> fname f <> n.
 Definition has_repeated (s : shape) : Prop := exists f, In f s /\ frep f = true.
-
-Definition code_paged (req resp : shape) : Prop :=
-  has req "page_token" is_str /\
-  has resp "next_page_token" is_str /\
-  (has req "max_results" size_type_ok \/ (lacks req "max_results" /\ has req "page_size" size_type_ok)) /\
-  has_repeated resp.
 
 (* ---- the property's own sentence ----
    "its request has a string page_token and an integer page_size (or legacy max_results, integer or
@@ -86,7 +81,7 @@ Definition spec_paged (req resp : shape) : Prop :=
   has resp "next_page_token" sing_str /\
   has_repeated resp.
 
-(* boolean mirrors (decision procedures; proved equivalent in Proofs/Paging.v) *)
+(* boolean mirror (decision procedure; proved equivalent in Proofs/Paging.v) *)
 Definition hasb (s : shape) (n : string) (p : field -> bool) : bool :=
   existsb (fun f => String.eqb (fname f) n && p f) s.
 Definition spec_pagedb (req resp : shape) : bool :=
@@ -94,16 +89,6 @@ Definition spec_pagedb (req resp : shape) : bool :=
   (hasb req "page_size" sing_int || hasb req "max_results" legacy_size) &&
   hasb resp "next_page_token" sing_str &&
   existsb frep resp.
-
-(* shapes on which the code and the sentence cannot differ: the four paging fields are singular, page_size is
-   not a message, and a max_results of an inadmissible type does not sit next to an integer page_size *)
-Definition paging_name (n : string) : bool :=
-  String.eqb n "page_token" || String.eqb n "page_size" || String.eqb n "max_results".
-Definition regular (req resp : shape) : Prop :=
-  (forall f, In f req -> paging_name (fname f) = true -> frep f = false) /\
-  (forall f, In f resp -> fname f = "next_page_token" -> frep f = false) /\
-  (forall f, In f req -> fname f = "page_size" -> size_type_ok f = true -> is_int f = true) /\
-  (forall f, In f req -> fname f = "max_results" -> size_type_ok f = false -> ~ has req "page_size" sing_int).
 
 (* ------------------------------------------------------------------ (ii) the emitted pager classes *)
 
@@ -252,6 +237,23 @@ Section Pager.
                       (first :: followup_calls sts) ps (option_map pager_attrs (last_opt sts)))
     end.
 
+  (* the consumer breaks out of the loop while it holds page number [b] (0 = the first page): the generator is
+     suspended at that yield, nothing further has been fetched, and attribute lookup reaches page [b] *)
+  Definition stop_after (b : nat) (o : outcome) : option outcome :=
+    match nth_error (o_pages o) b with
+    | None => None
+    | Some pb =>
+      Some (mkOutcome (concat (map p_items (firstn (S b) (o_pages o)))) (firstn (S b) (o_calls o))
+                      (firstn (S b) (o_pages o)) (Some pb))
+    end.
+  (* iterating items: the page being consumed when the [j]-th item (j >= 1) has just been yielded *)
+  Fixpoint page_of_item (j : nat) (ps : list page) : option nat :=
+    match ps with
+    | [] => None
+    | p :: ps' => if Nat.leb j (length (p_items p)) then Some 0
+                  else option_map S (page_of_item (j - length (p_items p)) ps')
+    end.
+
   (* ---- the property's sentence about the loop, stated on the history alone ---- *)
   Definition nonempty_token (p : page) : Prop := p_token p <> "".
   (* [h] = init ++ last :: rest with [last] the first page whose token is empty *)
@@ -269,6 +271,7 @@ Arguments pager_attrs {item attrs fields opts}. Arguments last_opt {A}.
 Arguments iterate {item attrs fields opts}. Arguments mkOutcome {item attrs fields opts}.
 Arguments o_items {item attrs fields opts}. Arguments o_calls {item attrs fields opts}.
 Arguments o_pages {item attrs fields opts}. Arguments o_final {item attrs fields opts}.
+Arguments stop_after {item attrs fields opts}. Arguments page_of_item {item attrs}.
 Arguments nonempty_token {item attrs}. Arguments splits_at_first_empty {item attrs}.
 
 (* ------------------------------------------------------------------ comparison helpers for the harness *)
@@ -304,6 +307,38 @@ Definition pages_run_matches (is_async : bool) (first : scall) (resp0 : spage) (
   | Some o =>
     list_eqb spage_eqb (o_pages o) pages && list_eqb scall_eqb (o_calls o) calls &&
     option_eqb spage_eqb (o_final o) final
+  end.
+
+(* the consumer left the "pages" loop while holding page [b]: pages seen (with the pager's own attributes at each
+   yield), calls at the server so far, attributes read through the pager after the break *)
+Definition pages_break_matches (is_async : bool) (first : scall) (resp0 : spage) (script : list spage) (b : nat)
+           (pages : list spage) (calls : list scall) (final : option spage) : bool :=
+  match iterate is_async first resp0 script with
+  | None => false
+  | Some o =>
+    match stop_after b o with
+    | None => false
+    | Some o' =>
+      list_eqb spage_eqb (o_pages o') pages && list_eqb scall_eqb (o_calls o') calls &&
+      option_eqb spage_eqb (o_final o') final
+    end
+  end.
+(* the consumer left the item loop after [j] >= 1 items *)
+Definition items_break_matches (is_async : bool) (first : scall) (resp0 : spage) (script : list spage) (j : nat)
+           (items : list string) (calls : list scall) (final : option spage) : bool :=
+  match iterate is_async first resp0 script with
+  | None => false
+  | Some o =>
+    match page_of_item j (o_pages o) with
+    | None => false
+    | Some b =>
+      match stop_after b o with
+      | None => false
+      | Some o' =>
+        list_eqb String.eqb (firstn j (o_items o)) items && list_eqb scall_eqb (o_calls o') calls &&
+        option_eqb spage_eqb (o_final o') final
+      end
+    end
   end.
 
 Definition lines_eqb (a b : list string) : bool := list_eqb String.eqb a b.
